@@ -5,6 +5,7 @@ import (
 	"errors"
 	"fmt"
 	"io"
+	"math"
 	"net"
 	"strconv"
 	"strings"
@@ -109,6 +110,12 @@ func toBytes(f net.Addr, fwdType int) []byte {
 
 	default:
 		logrus.Error("Unknown address type")
+		return nil
+	}
+
+	if len(addrStr) > math.MaxUint16 {
+		// the length prefix is 16 bits: a longer address would be sent mis-framed
+		logrus.Error("Address too long")
 		return nil
 	}
 
